@@ -768,7 +768,13 @@ impl ProxyServer {
 
         const MAX_ERROR_DETAILS_LEN: usize = 4096; // 4KB
         if error_details.len() > MAX_ERROR_DETAILS_LEN {
-            error_details.truncate(MAX_ERROR_DETAILS_LEN);
+            // cut at a character boundary: String::truncate panics when the offset
+            // falls inside a multi-byte character (e.g. a non-ASCII command line)
+            let mut end = MAX_ERROR_DETAILS_LEN;
+            while !error_details.is_char_boundary(end) {
+                end -= 1;
+            }
+            error_details.truncate(end);
         }
 
         let summary = ProxySummary {
